@@ -182,14 +182,15 @@ def array_groups():
 def string_groups():
     S = 'spec/s_string.c'
     src = [('vector.c', {'loops': 'spec/loops/vector.lc'}), '_string.c', 'string.c']
+    SRC_LC = [('vector.c', {'loops': 'spec/loops/vector.lc'}), ('_string.c', {'loops': 'spec/loops/string.lc'}), 'string.c']
     G = []
     for w, wd in (('narrow', '-DVF_S_NARROW'), ('wide', '-DVF_S_WIDE')):
         for fam in ('', 'empty'):
             d = [wd] + (['-DVF_S_EMPTY'] if fam else [])
             sfx = '.' + w + ('.empty' if fam else '')
 
-            def g(name, props, harness, enforce, what, **kw):
-                G.append(Group('string.' + name + sfx, props, 'P', S, harness, enforce=enforce, sources=src, defines=d,
+            def g(name, props, harness, enforce, what, defs=(), srcs=None, **kw):
+                G.append(Group('string.' + name + sfx, props, 'P', S, harness, enforce=enforce, sources=srcs or src, defines=d + list(defs),
                                what=what + ' [%s, %s]' % (w, 'empty string' if fam else 'string with storage'),
                                thorough_for=(['C16'] if w == 'wide' else []), **kw))
             g('resize0', ['C10', 'C16'], 'h_resize0', 'cstl_%sstring___resize' % ('w' if w == 'wide' else ''),
@@ -197,6 +198,33 @@ def string_groups():
             g('prep_insert', ['C10', 'C16'], 'h_prep_insert', 'cstl_%sstring_prep_insert' % ('w' if w == 'wide' else ''),
               'prep_insert: abort iff pos > size; size grows by len (or abort), prefix kept and suffix shifted by len, memmove ranges inside the storage', covers=['end', 'abort'],
               shards=1 if fam else 8, timeout=900)
+            W_ = 'w' if w == 'wide' else ''
+            # insert_str_n: modular (prep_insert replaced by its proved contract) in the quick tier,
+            # fully inlined down to realloc (no assumed contract at all) in the thorough tier
+            for mode, mtier, mdefs, mrepl in (('', 'quick', ['-DVF_ASSUMED_POST'], ['cstl_%sstring_prep_insert' % W_]), ('.inline', 'thorough', [], [])):
+                mtxt = ' (callees inlined down to realloc)' if mode else ' (prep_insert replaced by its proved contract)'
+                cov = ['end', 'abort'] if mode else ['end']
+                if not fam:
+                    g('insert_str_n.old' + mode, ['C10'], 'h_insert_str_n', 'cstl_%sstring_insert_str_n' % W_,
+                      'insert_str_n, kept characters: abort iff idx > size; size grows by len; prefix kept, suffix shifted by len' + mtxt,
+                      covers=cov, shards=8 if mode else 1, timeout=1200, defs=['-DVF_G_insert_str_n'] + mdefs, replace=mrepl, tier=mtier)
+                g('insert_str_n.new' + mode, ['C10'], 'h_insert_str_n', 'cstl_%sstring_insert_str_n' % W_,
+                  'insert_str_n, inserted characters: character idx+g of the result is character g of the source for every g < len, whatever the characters are (embedded NULs included)' + mtxt,
+                  covers=cov, shards=8 if (mode and not fam) else 1, timeout=1200, defs=['-DVF_G_insert_str_n', '-DVF_INS_NEW'] + mdefs, replace=mrepl, tier=mtier)
+            g('insert_ch', ['C10'], 'h_insert_ch', 'cstl_%sstring_insert_ch' % W_,
+              'insert_ch (prep_insert replaced by its proved contract, fill loop under loop contract): size grows by cnt, the cnt characters at idx are ch, prefix kept, suffix shifted',
+              covers=['end'], replace=['cstl_%sstring_prep_insert' % W_], defs=['-DVF_G_insert_ch', '-DVF_ASSUMED_POST'], srcs=SRC_LC)
+            g('resize', ['C10'], 'h_resize', 'cstl_%sstring_resize' % W_,
+              'resize (public; __resize replaced by its proved contract, padding loop under loop contract): exactly n characters + NUL, kept prefix, every new character is NUL',
+              covers=['end'], replace=['cstl_%sstring___resize' % W_], defs=['-DVF_G_resize', '-DVF_ASSUMED_POST'], srcs=SRC_LC)
+            if not fam:
+                for sf, sd in (('', []), ('.into_empty', ['-DVF_SUB_EMPTY'])):
+                    g('substr' + sf, ['C10'], 'h_substr', 'cstl_%sstring_substr' % W_,
+                      'substr%s: abort iff idx >= size; sub is exactly the characters [idx, idx+min(len, size-idx)) for every len; the source is not in the frame (callees inlined down to realloc)' % (' into an empty object' if sf else ' into an object with storage'),
+                      covers=['end', 'abort'], defs=['-DVF_G_substr'] + sd, timeout=900, tier=('thorough' if (w == 'wide' and not sf) else 'quick'))
+            g('insert', ['C10'], 'h_insert', 'cstl_%sstring_insert' % W_,
+              'insert of a string object (header wrapper; insert_str_n replaced by its proved contract): all size(ins) characters are inserted, embedded NULs included',
+              covers=['end'], replace=['cstl_%sstring_insert_str_n' % W_], defs=['-DVF_G_insert', '-DVF_G_insert_str_n', '-DVF_INS_NEW', '-DVF_ASSUMED_POST'])
             g('at', ['C10'], 'h_at', 'cstl_%sstring_at' % ('w' if w == 'wide' else ''), 'at: abort iff index >= size', covers=['abort'] if fam else ['end', 'abort'])
             g('str', ['C10'], 'h_str', 'cstl_%sstring_str' % ('w' if w == 'wide' else ''), 'str: size characters followed by NUL')
             if not fam:
